@@ -120,4 +120,62 @@ theorem upcaseT_periodic (h : ℝ) : getUpcaseT (h + 360) = getUpcaseT h := by
 example : getDeltaHPrime (3 : ℝ) 2 300 10 = -getDeltaHPrime (2 : ℝ) 3 10 300 :=
   deltaHPrime_antisymm 2 3 10 300
 
+
+/-! ### CIEDE2000 as implemented: non-negative, zero on identical inputs, symmetric — for all Lab inputs -/
+
+
+theorem ciede2000_nonneg (p q : Lab3 ℝ) : 0 ≤ ciede2000 p q := by
+  unfold ciede2000
+  simp only [real_sqrt]
+  exact Real.sqrt_nonneg _
+
+theorem deltaHPrime_self (c h : ℝ) : getDeltaHPrime c c h h = 0 := by
+  rw [deltaHPrime_real]
+  by_cases hc : c = 0
+  · rw [if_pos (Or.inl hc)]
+  · rw [if_neg (by tauto), if_pos (by rw [sub_self, abs_zero]; norm_num), sub_self]
+
+theorem ciede2000_self (p : Lab3 ℝ) : ciede2000 p p = 0 := by
+  unfold ciede2000
+  simp only [deltaHPrime_self]
+  simp only [powi_two, sub_self, degreesToRadians, real_sin, real_sqrt]
+  norm_num
+
+/-- **Symmetry for every pair of Lab inputs**: swapping the arguments negates `ΔL'`, `ΔC'` and
+`ΔH'` (the latter by `deltaHPrime_antisymm` and `sin (−x) = −sin x`), keeps every mean and weight,
+and the distance depends on the three differences only through squares and the product
+`ΔC'·ΔH'`. -/
+theorem ciede2000_symm (p q : Lab3 ℝ) : ciede2000 p q = ciede2000 q p := by
+  unfold ciede2000
+  simp only []
+  generalize hc1 : ScT.sqrt (powi p.a 2 + powi p.b 2) = c1
+  generalize hc2 : ScT.sqrt (powi q.a 2 + powi q.b 2) = c2
+  rw [add_comm c2 c1]
+  generalize hk : (1.0 : ℝ) - ScT.sqrt (powi ((c1 + c2) / 2.0) 7 / (powi ((c1 + c2) / 2.0) 7 + pow25_7)) = k
+  generalize ha1 : p.a + p.a / 2.0 * k = a1
+  generalize ha2 : q.a + q.a / 2.0 * k = a2
+  generalize hp1 : ScT.sqrt (powi a1 2 + powi p.b 2) = cp1
+  generalize hp2 : ScT.sqrt (powi a2 2 + powi q.b 2) = cp2
+  rw [add_comm cp2 cp1, mul_comm cp2 cp1, add_comm q.l p.l]
+  generalize hh1 : getHPrime p.b a1 = h1
+  generalize hh2 : getHPrime q.b a2 = h2
+  rw [deltaHPrime_antisymm c1 c2 h1 h2, upcaseHBarPrime_symm h2 h1]
+  have hsin : ScT.sin (degreesToRadians (-getDeltaHPrime c1 c2 h1 h2) / 2.0)
+      = -ScT.sin (degreesToRadians (getDeltaHPrime c1 c2 h1 h2) / 2.0) := by
+    unfold degreesToRadians
+    rw [real_sin, real_sin, ← Real.sin_neg]
+    congr 1
+    norm_num
+    ring
+  rw [hsin]
+  generalize ScT.sin (degreesToRadians (getDeltaHPrime c1 c2 h1 h2) / 2.0) = sn
+  generalize getRSubT ((cp1 + cp2) / 2.0) (getUpcaseHBarPrime h1 h2) = rt
+  generalize getUpcaseT (getUpcaseHBarPrime h1 h2) = tt
+  generalize ScT.sqrt (cp1 * cp2) = sq
+  generalize ScT.sqrt (20.0 + powi ((p.l + q.l) / 2.0 - 50.0) 2) = sl
+  simp only [powi_two]
+  congr 1
+  norm_num
+  ring
+
 end Pastel.C11
